@@ -31,5 +31,29 @@ func selfcheck() int {
 		return 2
 	}
 	fmt.Println("selfcheck ok: term layer + z3 4.8.12, z3 5.1.0, cvc5 agree on 5 fixed queries")
+	// translator validation (also warms the golden cache)
+	verifDir := envOr("VERIF_DIR", "/verif")
+	repoDir := envOr("VERIF_REPO", "/repo")
+	golden, err := tvGolden(repoDir, verifDir)
+	if err != nil {
+		fmt.Println("selfcheck FAILED: translator validation (native):", err)
+		return 2
+	}
+	pc := &PropCfg{Harnesses: []*HarnessCfg{{Name: "tv", Pkg: rtPkg, Func: "TVArith"}}}
+	eng, err := loadEngine(repoDir, verifDir, pc)
+	if err != nil {
+		fmt.Println("selfcheck FAILED: load:", err)
+		return 2
+	}
+	eng.tier = "quick"
+	n, badTV := eng.runTV(golden)
+	for _, b := range badTV {
+		fmt.Println("translator validation mismatch:", b)
+	}
+	if len(badTV) > 0 {
+		fmt.Println("selfcheck FAILED")
+		return 2
+	}
+	fmt.Printf("selfcheck ok: translator validation, %d observations identical natively and in the engine\n", n)
 	return 0
 }
